@@ -213,6 +213,9 @@ def run_case(case):
                 # 4. IR faithfulness
                 cache_live, cache_ir = {}, {}
                 live_by_vid = {}
+                def weak_of(step):
+                    rcp = step.getPackage().getRecipe()
+                    return set(rcp.checkoutVarsWeak if step.isCheckoutStep() else rcp.buildVarsWeak if step.isBuildStep() else rcp.packageVarsWeak)
                 def mk_bid(cache, is_ir):
                     async def bid(step):
                         if is_ir and getattr(step, "partial", False):
@@ -262,7 +265,9 @@ def run_case(case):
                                 "main-script": (a.getMainScript(), b.getMainScript()),
                                 "setup-script": (a.getSetupScript(), b.getSetupScript()),
                                 "digest-script": (a.getDigestScript(), b.getDigestScript()),
-                                "env": (sorted(a.getEnv().items()), sorted(b.getEnv().items())),
+                                # weak variables do not separate packages: instances with one Variant-Id may differ in them and the job spec
+                                # carries one representative - only the strong part of the environment is compared
+                                "env": (sorted((k_, v_) for k_, v_ in a.getEnv().items() if k_ not in weak_of(b)), sorted((k_, v_) for k_, v_ in b.getEnv().items() if k_ not in weak_of(b))),
                                 "workspace": (a.getWorkspacePath(), b.getWorkspacePath()),
                                 "tools": (sorted((k, t.getStep().getVariantId().hex(), t.getPath(), list(t.getLibs())) for k, t in a.getTools().items()),
                                           sorted((k, t.getStep().getVariantId().hex(), t.getPath(), list(t.getLibs())) for k, t in b.getTools().items())),
